@@ -853,6 +853,11 @@ func (g *G) genC05(p *Plan, listing bool) {
 			}
 		default:
 			op = Op{K: "lsversions", B: b}
+			if !listing && g.chance(0.3) {
+				// a bucket whose keys all read as deleted still holds their
+				// history: it is not empty
+				op = Op{K: "rmbucket", B: b}
+			}
 		}
 		ops = append(ops, op)
 		if !listing && (op.K == "put" || op.K == "del" || op.K == "delmulti" || op.K == "setver") && g.chance(0.5) {
